@@ -18,6 +18,19 @@ use std::time::Instant;
 
 pub const VERIF_DIR: &str = "/verif";
 
+/// Root of the verification tree this binary belongs to: `<root>/harness/target-*/release/<exe>`
+/// (falls back to /verif), so that a snapshot copy of /verif is self-contained.
+pub fn verif_dir() -> String {
+    if let Ok(exe) = std::env::current_exe() {
+        if let Some(root) = exe.ancestors().nth(4) {
+            if root.join("known_findings.json").exists() {
+                return root.to_string_lossy().to_string();
+            }
+        }
+    }
+    VERIF_DIR.to_string()
+}
+
 #[derive(Clone, Copy, PartialEq, Eq, Debug)]
 pub enum Tier {
     Quick,
@@ -115,7 +128,7 @@ impl KnownFinding {
 }
 
 pub fn load_known_findings() -> Vec<KnownFinding> {
-    let p = format!("{}/known_findings.json", VERIF_DIR);
+    let p = format!("{}/known_findings.json", verif_dir());
     match std::fs::read_to_string(&p) {
         Ok(s) => serde_json::from_str(&s).expect("known_findings.json must parse"),
         Err(_) => vec![],
@@ -477,7 +490,7 @@ impl Check {
         self.sections.push(st);
         self.inconclusive.extend(sh.inconclusive);
         if let Some((case, reason)) = sh.failure {
-            let dir = std::env::var("VERIF_REPLAY_DIR").unwrap_or(format!("{}/evidence/replays", VERIF_DIR));
+            let dir = std::env::var("VERIF_REPLAY_DIR").unwrap_or(format!("{}/evidence/replays", verif_dir()));
             let _ = std::fs::create_dir_all(&dir);
             let body = json!({ "property": self.id, "section": name, "reason": reason, "case": case });
             let h = hash_value(&body);
@@ -620,7 +633,7 @@ impl Check {
         }
         self.sections.push(st);
         if let Some((case, reason)) = failure {
-            let dir = std::env::var("VERIF_REPLAY_DIR").unwrap_or(format!("{}/evidence/replays", VERIF_DIR));
+            let dir = std::env::var("VERIF_REPLAY_DIR").unwrap_or(format!("{}/evidence/replays", verif_dir()));
             let _ = std::fs::create_dir_all(&dir);
             let body = json!({ "property": self.id, "section": name, "reason": reason, "case": case });
             let h = hash_value(&body);
@@ -690,7 +703,7 @@ impl Check {
         }
         self.sections.push(st);
         if let Some((case, reason)) = first_failure {
-            let dir = std::env::var("VERIF_REPLAY_DIR").unwrap_or(format!("{}/evidence/replays", VERIF_DIR));
+            let dir = std::env::var("VERIF_REPLAY_DIR").unwrap_or(format!("{}/evidence/replays", verif_dir()));
             let _ = std::fs::create_dir_all(&dir);
             let body = json!({ "property": self.id, "section": name, "reason": reason, "case": case });
             let h = hash_value(&body);
@@ -774,7 +787,7 @@ impl Check {
         });
         // VERIF_NO_EVIDENCE: runs against deliberately broken trees (seeded changes) must not overwrite evidence
         if !replaying && std::env::var("VERIF_NO_EVIDENCE").is_err() {
-            let dir = format!("{}/evidence", VERIF_DIR);
+            let dir = format!("{}/evidence", verif_dir());
             let _ = std::fs::create_dir_all(&dir);
             let path = format!("{}/{}.json", dir, self.id);
             std::fs::write(&path, serde_json::to_string_pretty(&ev).unwrap()).unwrap();
